@@ -328,6 +328,20 @@ def run(ctx):
                  values.render(values.abstract(o2)), b2.hex()))
     scen.append(("two readers, nested-sharing", dec_job(cl.cls(i2), b2), dec_job(cl.cls(i3), b3),
                  values.render(values.abstract(o2)), values.render(values.abstract(o3))))
+    # the one class whose fields are resolved by a *special case* (RequestHeader.client_id), created
+    # while another class with a client_id-free and a string-bearing layout is being created
+    try:
+        irh = keyidx["kio.schema.request_header.v2.header:RequestHeader"]
+        (_, arh, orh), = codec.gen_instances(cl, [irh], 1, random.Random(ctx.seed + 5), big_strings=False)[:1]
+        brh = ref_bytes(cl.cls(irh), orh)
+        scen.append(("request header reader vs another class's reader", dec_job(cl.cls(irh), brh), dec_job(cl.cls(i1), b1),
+                     values.render(values.abstract(orh)), values.render(values.abstract(o1))))
+        scen.append(("another class's reader vs request header reader", dec_job(cl.cls(i1), b1), dec_job(cl.cls(irh), brh),
+                     values.render(values.abstract(o1)), values.render(values.abstract(orh))))
+        scen.append(("request header writer vs another class's writer", enc_job(cl.cls(irh), orh), enc_job(cl.cls(i1), o1),
+                     brh.hex(), b1.hex()))
+    except Exception as e:  # noqa: BLE001
+        ctx.notes.append(f"request-header scenarios not built: {type(e).__name__}: {e}")
     nsched = 0
     for name, ja, jb, ra, rb in scen:
         clear_caches()
@@ -346,6 +360,10 @@ def run(ctx):
                 break
         # two preemptions at cache boundaries (thorough) or a seeded sample (quick)
         pairs = [(rng.randrange(1, max(2, total0)), rng.randrange(1, max(2, total1))) for _ in range(200 if thorough else 25)]
+        # … and a grid: thread 0 stopped at k0, thread 1 run for k1 steps, thread 0 finished, thread 1 finished
+        g = 40 if thorough else 14
+        pairs += [(max(1, (a * total0) // g + rng.randrange(max(1, total0 // g))), max(1, (b * total1) // g + rng.randrange(max(1, total1 // g))))
+                  for a in range(g) for b in range(g)]
         for k0, k1 in pairs:
             clear_caches()
             res = Sched([(0, k0), (1, k1), (0, None), (1, None)]).run([ja, jb])
